@@ -261,6 +261,11 @@ class BaseEvent(BaseModel, Generic[T_EventResultType]):
     # evict a parent that is still in flight; the completion of its children must still be able to reach it.
     _event_parent_ref: 'weakref.ref[BaseEvent[Any]] | None' = PrivateAttr(default=None)
 
+    # Number of buses that have accepted the event (dispatch / forwarding) and have not finished processing it yet.
+    # The event cannot be complete before every one of them has run its handlers, even if the handlers of the buses
+    # that were faster are all done already.
+    _event_pending_bus_count: int = PrivateAttr(default=0)
+
     @property
     def event_parent(self) -> 'BaseEvent[Any] | None':
         """The event whose handler dispatched this event, if that is known and the object is still alive"""
@@ -719,6 +724,10 @@ class BaseEvent(BaseModel, Generic[T_EventResultType]):
     def event_mark_complete_if_all_handlers_completed(self) -> None:
         """Check if all handlers are done and signal completion"""
         if self.event_completed_signal and not self.event_completed_signal.is_set():
+            # Still queued on (or being processed by) another bus that it was forwarded to: not complete yet
+            if self._event_pending_bus_count > 0:
+                return
+
             # If there are no results at all, the event is complete
             if not self.event_results:
                 if hasattr(self, 'event_processed_at'):
@@ -759,7 +768,7 @@ class BaseEvent(BaseModel, Generic[T_EventResultType]):
         _visited.add(self.event_id)
 
         for child_event in self.event_children:
-            if child_event.event_status != 'completed':
+            if child_event.event_status != 'completed' or child_event._event_pending_bus_count > 0:
                 logger.debug(f'Event {self} has incomplete child {child_event}')
                 return False
             # Recursively check child's children
